@@ -38,7 +38,7 @@ def run_case(data):
             break
         usable = sorted(s for s in m.streams if s not in w.tainted)
         op = ch.weighted([(5, 'open'), (3, 'respond'), (2, 'data'), (2, 'end'), (2, 'rst'), (2, 'push'),
-                          (8, 'advertise'), (8, 'recv-altsvc'), (1, 'cleanup')])
+                          (8, 'advertise'), (8, 'recv-altsvc'), (1, 'cleanup'), (2, 'trailers')])
         if op == 'open':
             if client:
                 sid = w.next_local_id()
@@ -75,6 +75,12 @@ def run_case(data):
             cands = [s for s in usable if m.get(s).can_send() and m.get(s).s_final and not m.get(s).s_trailers]
             if cands:
                 w.end_stream(ch.pick(cands))
+        elif op == 'trailers':
+            # sent trailers end our side of the stream; they carry no :authority and change nothing else
+            cands = [s for s in usable if m.get(s).can_send() and m.headers_position(m.get(s)) == 'trailers']
+            if cands:
+                w.send_headers(ch.pick(cands), 'trailers', True)
+                r.labels.add('sent-trailers')
         elif op == 'rst':
             cands = [s for s in usable if m.get(s).live()]
             if cands:
@@ -124,7 +130,8 @@ def run_case(data):
                     odd_state = True
             else:
                 if form == 'both':
-                    o = w.s.call('advertise_alternative_service', field, origin=b'example.com', stream_id=sid)
+                    o = w.s.call('advertise_alternative_service', field, origin=ch.pick([b'example.com', b'']),
+                                 stream_id=sid)
                 elif form == 'neither':
                     o = w.s.call('advertise_alternative_service', field)
                 else:
